@@ -97,7 +97,7 @@ fn dispatch(id: &str, quick: bool, seed: u64) -> Option<(Outcome, u64)> {
             "C07" | "C08" | "C09" | "C19" => Some(("quant_ops", 100_000, 1200)),
             "C13" => Some(("glide_ops", 30_000, 400)),
             "C15" | "C16" => Some(("ribbon_ops", 2_500, 200)),
-            "C17" => Some(("api_any", 50_000, 1500)),
+            "C17" => Some(("api_any", 12_000, 1500)),
             _ => None,
         };
         if let Some((target, runs, max_len)) = camp {
